@@ -177,11 +177,14 @@ class Ctx:
             shutil.rmtree(dst)
         shutil.copytree(src, dst)
         with open(os.path.join(dst, "go.mod"), "w") as f:
-            f.write("module verifharness\n\ngo 1.18\n\nrequire github.com/influxdata/influxql v0.0.0\n\n"
+            f.write("module verifharness\n\ngo 1.21\n\nrequire github.com/influxdata/influxql v0.0.0\n\n"
                     "replace github.com/influxdata/influxql => %s\n" % REPO)
         shutil.copy(os.path.join(REPO, "go.sum"), os.path.join(dst, "go.sum"))
         exe = os.path.join(dst, "vdrive")
         cmd = ["go", "build", "-tags", "verif", "-o", exe]
+        if os.environ.get("VERIF_COVERDIR"):
+            # coverage survey (not part of any verdict): which statements of the package do the suites execute
+            cmd[2:2] = ["-cover", "-coverpkg=github.com/influxdata/influxql"]
         env = go_env()
         if race:
             cmd.insert(2, "-race")
@@ -201,6 +204,8 @@ class Ctx:
         e = go_env()
         e["VERIF_SEED"] = str(self.seed)
         e["VERIF_REPO_DIR"] = REPO
+        if os.environ.get("VERIF_COVERDIR"):
+            e["GOCOVERDIR"] = os.environ["VERIF_COVERDIR"]
         if env:
             e.update(env)
         try:
